@@ -7,12 +7,38 @@ Open Scope Z_scope.
 (* what the environment guarantees about a command (everything else is unconstrained):
    - instants of shard-group creation lie below the end of the time domain (models.MaxNanoTime + 1);
    - an index is pruned only once no shard refers to it. *)
+(* every instant of the catalogue is representable as int64 nanoseconds *)
+Definition span_ok (s e : Z) : Prop := MININT <= s <= MAXNANO1 /\ MININT <= e <= MAXNANO1.
+Definition representable (c : cat) : Prop :=
+  Forall (fun p => Forall (fun g => span_ok (sg_start g) (sg_end g)) (rp_sgs p) /\
+                   Forall (fun g => span_ok (ig_start g) (ig_end g)) (rp_igs p)) (pols c).
+
 Definition env_ok (c : cat) (x : cmd) : Prop :=
   match x with
   | CreateSg _ _ t _ => t < MAXNANO1
   | PruneIg id => prune_ig_env c id
+  | Restore => representable c     (* no group starts before -2^63 ns (finding C16-restore-wraps-early-group-start) *)
   | _ => True
   end.
+
+Lemma wrap64_id : forall z, MININT <= z <= MAXNANO1 -> wrap64 z = z.
+Proof. intros z H. unfold wrap64, MININT, MAXNANO1 in *. rewrite Z.mod_small; lia. Qed.
+
+Lemma restore_state_id : forall c, representable c -> restore_state c = c.
+Proof.
+  intros c H. unfold restore_state.
+  assert (E : map (fun p => pol_set_igs (pol_set_sgs p (map restore_sg (rp_sgs p))) (map restore_ig (rp_igs p))) (pols c) = pols c).
+  { rewrite <- (map_id (pols c)) at 2. apply map_ext_in. intros p Hp. unfold representable in H. rewrite Forall_forall in H.
+    destruct (H p Hp) as [Hs Hi].
+    assert (E1 : map restore_sg (rp_sgs p) = rp_sgs p).
+    { rewrite <- (map_id (rp_sgs p)) at 2. apply map_ext_in. intros g Hg. rewrite Forall_forall in Hs. destruct (Hs g Hg) as [A B].
+      destruct g. unfold restore_sg. cbn in *. rewrite !wrap64_id by assumption. reflexivity. }
+    assert (E2 : map restore_ig (rp_igs p) = rp_igs p).
+    { rewrite <- (map_id (rp_igs p)) at 2. apply map_ext_in. intros g Hg. rewrite Forall_forall in Hi. destruct (Hi g Hg) as [A B].
+      destruct g. unfold restore_ig. cbn in *. rewrite !wrap64_id by assumption. reflexivity. }
+    rewrite E1, E2. destruct p. reflexivity. }
+  rewrite E. destruct c. reflexivity.
+Qed.
 
 Lemma wf_init : forall per sc, wf (init_cat per sc).
 Proof. intros. apply wf_b_iff. reflexivity. Qed.
@@ -39,6 +65,7 @@ Proof.
   - apply wf_create_node; assumption.
   - apply wf_create_ptview; assumption.
   - apply wf_update_pt; assumption.
+  - cbn [fst ok]. rewrite restore_state_id by exact E. exact H.
 Qed.
 
 (* every command of the sequence meets the environment's guarantee in the state it is applied to *)
@@ -73,7 +100,7 @@ Lemma counters_mono : forall clip cd c x, 0 <= ptnum c -> 0 <= ptper c -> counte
 Proof.
   intros clip cd c x Hp Hpp. destruct x; cbn [apply];
     unfold create_db, mark_db, drop_db, create_rp, update_rp, mark_rp, drop_rp, set_default_rp, create_mst, mark_mst, drop_mst,
-      create_sg, delete_sg, prune_sg, delete_ig, prune_ig, create_node, create_ptview, update_pt, ok, err, add_mst, set_default, upd_pol, upd_db;
+      create_sg, delete_sg, prune_sg, delete_ig, prune_ig, create_node, create_ptview, update_pt, ok, err, add_mst, set_default, upd_pol, upd_db, restore_state;
     repeat match goal with
            | |- context [match ?e with _ => _ end] => destruct e eqn:?; cbn [fst snd]
            | |- context [if ?e then _ else _] => destruct e eqn:?; cbn [fst snd]
@@ -85,14 +112,21 @@ Definition prune_ig_env_b (c : cat) (id : Z) : bool :=
   forallb (fun p => forallb (fun g => negb (ig_gone (prune_mark_ig id g)) ||
      forallb (fun ix => forallb (fun sg => forallb (fun s => negb (sh_index s =? ix_id ix)) (sg_shards sg)) (rp_sgs p)) (ig_indexes g))
      (rp_igs p)) (pols c).
+Definition span_ok_b (s e : Z) : bool := (MININT <=? s) && (s <=? MAXNANO1) && (MININT <=? e) && (e <=? MAXNANO1).
+Definition representable_b (c : cat) : bool :=
+  forallb (fun p => forallb (fun g => span_ok_b (sg_start g) (sg_end g)) (rp_sgs p) &&
+                    forallb (fun g => span_ok_b (ig_start g) (ig_end g)) (rp_igs p)) (pols c).
 Definition env_ok_b (c : cat) (x : cmd) : bool :=
-  match x with CreateSg _ _ t _ => t <? MAXNANO1 | PruneIg id => prune_ig_env_b c id | _ => true end.
+  match x with CreateSg _ _ t _ => t <? MAXNANO1 | PruneIg id => prune_ig_env_b c id | Restore => representable_b c | _ => true end.
 Fixpoint env_run_b (c : cat) (xs : list cmd) : bool :=
   match xs with [] => true | x :: r => env_ok_b c x && env_run_b (fst (apply true true c x)) r end.
 
 Lemma env_ok_b_sound : forall c x, env_ok_b c x = true -> env_ok c x.
 Proof.
-  intros c x. destruct x; cbn [env_ok_b env_ok]; try (intros; exact I); [lia|].
+  intros c x. destruct x; cbn [env_ok_b env_ok]; try (intros; exact I); [lia| |].
+  2: { unfold representable_b, representable. intros Hb. rewrite forallb_forall in Hb. apply Forall_forall. intros p Hp.
+       specialize (Hb p Hp). apply andb_true_iff in Hb. destruct Hb as [B1 B2]. rewrite forallb_forall in B1, B2.
+       split; apply Forall_forall; intros g Hg; [specialize (B1 g Hg) | specialize (B2 g Hg)]; unfold span_ok_b, span_ok in *; lia. }
   unfold prune_ig_env_b, prune_ig_env. intros Hb p g ix sg s Hp Hg Hgone Hix Hsg Hs.
   rewrite forallb_forall in Hb. specialize (Hb p Hp). rewrite forallb_forall in Hb. specialize (Hb g Hg).
   rewrite Hgone in Hb. cbn [negb orb] in Hb. rewrite forallb_forall in Hb. specialize (Hb ix Hix).
@@ -103,4 +137,14 @@ Lemma env_run_b_sound : forall xs c, env_run_b c xs = true -> env_run c xs.
 Proof.
   induction xs; intros c H; cbn [env_run env_run_b] in *; [exact I|].
   apply andb_true_iff in H. destruct H as [H1 H2]. split; [apply env_ok_b_sound; exact H1 | apply IHxs; exact H2].
+Qed.
+
+(* ---- a snapshot/restore inserted anywhere in a log is invisible (C15's second half, on this command model) ---- *)
+Lemma run_app : forall clip cd xs ys c, run clip cd c (xs ++ ys) = run clip cd (run clip cd c xs) ys.
+Proof. intros clip cd xs. induction xs; intros ys c; cbn [app run]; [reflexivity | apply IHxs]. Qed.
+
+Lemma restore_transparent : forall clip cd l1 l2 c, representable (run clip cd c l1) ->
+  run clip cd c (l1 ++ Restore :: l2) = run clip cd c (l1 ++ l2).
+Proof.
+  intros clip cd l1 l2 c R. rewrite !run_app. cbn [run apply fst ok]. rewrite restore_state_id by exact R. reflexivity.
 Qed.
